@@ -43,7 +43,7 @@ Section Count.
     /\ count (error_hits k) t <= (if Z.eqb (cid c) k then 1 else 0).
   Proof.
     unfold create_violation_error, bindM, emit, throw, ret. intros H.
-    destruct (cerror c) as [|kk|e|eargs].
+    destruct (cerror c) as [|kk|e|eargs emand].
     - destruct (clambda c) eqn:El;
         [destruct (select _ _ _)|];
         cbn in H; injection H as <- <- <-; unfold count; cbn; destruct (Z.eqb (cid c) k); cbn; lia.
@@ -51,7 +51,7 @@ Section Count.
         [destruct (select _ _ _)|];
         cbn in H; injection H as <- <- <-; unfold count; cbn; destruct (Z.eqb (cid c) k); cbn; lia.
     - cbn in H; injection H as <- <- <-; unfold count; cbn; destruct (Z.eqb (cid c) k); destruct (clambda c); cbn; lia.
-    - destruct (select eargs eargs resolved) as [kw|]; cbn in H;
+    - destruct (select eargs emand resolved) as [kw|]; cbn in H;
         try (match type of H with context [u_error ?a ?b ?c] => destruct (u_error a b c) end);
         cbn in H; injection H as <- <- <-; unfold count; cbn;
         destruct (Z.eqb (cid c) k); destruct (clambda c); cbn; lia.
